@@ -318,6 +318,109 @@ Proof.
     destruct (png_chunks f total _ _) eqn:R; try discriminate. eapply IH; eauto.
 Qed.
 
+
+(* ---------------------------------------------------------------- the file as signature ++ encoded chunks ++ trailer *)
+
+Definition wf_pchunk (c : pchunk) : Prop :=
+  length (pname c) = 4%nat /\ utf8_ok (pname c) = true /\ length (pcrc c) = 4%nat /\ len (pdata c) < 4294967296.
+
+(* every chunk but the last is not IEND, the last one is *)
+Fixpoint iend_last (cs : list pchunk) : Prop :=
+  match cs with
+  | [] => False
+  | [c] => beq (pname c) PNG_END = true
+  | c :: t => beq (pname c) PNG_END = false /\ iend_last t
+  end.
+
+Lemma de_be4 n : n < 4294967296 -> de (be 4 n) = n.
+Proof.
+  intros H. cbn [be app]. unfold de. cbn [de_acc].
+  assert (n / 256 < 16777216) by (apply N.div_lt_upper_bound; lia).
+  assert (n / 256 / 256 < 65536) by (apply N.div_lt_upper_bound; lia).
+  assert (n / 256 / 256 / 256 < 256) by (apply N.div_lt_upper_bound; lia).
+  rewrite (N.mod_small (n / 256 / 256 / 256) 256) by lia.
+  pose proof (N.div_mod' n 256). pose proof (N.div_mod' (n / 256) 256). pose proof (N.div_mod' (n / 256 / 256) 256).
+  lia.
+Qed.
+
+Lemma list4 {A} (l : list A) : length l = 4%nat -> exists a b c d, l = [a; b; c; d].
+Proof. destruct l as [|a [|b [|c [|d [|e l]]]]]; cbn; intros H; try discriminate. eauto. Qed.
+
+Lemma png_chunks_encoded : forall cs fuel total pos tr ps,
+  Forall wf_pchunk cs -> iend_last cs ->
+  total = pos + len (concat (map enc_chunk cs) ++ tr) ->
+  png_chunks fuel total pos (concat (map enc_chunk cs) ++ tr) = Ok ps ->
+  cchain pos ps = Some (pos + len (concat (map enc_chunk cs))).
+Proof.
+  induction cs as [|c t IH]; intros fuel total pos tr ps W I T H; [destruct I|].
+  revert T H. inversion W as [|? ? Wc Wt]; subst. intros T H.
+  destruct Wc as (Ln & Un & Lc & Ld).
+  destruct (list4 _ Ln) as (n0 & n1 & n2 & n3 & En). destruct (list4 _ Lc) as (c0 & c1 & c2 & c3 & Ec).
+  destruct fuel as [|f]; [discriminate|].
+  cbn [map concat] in *. unfold enc_chunk at 1 in H. rewrite En in H.
+  pose proof (de_be4 _ Ld) as D.
+  remember (be 4 (len (pdata c))) as hd eqn:Hhd.
+  assert (exists l0 l1 l2 l3, hd = [l0; l1; l2; l3]) as (l0 & l1 & l2 & l3 & Eh).
+  { apply list4. subst hd. apply be_length. }
+  rewrite Eh in H, D. rewrite <- !app_assoc in H. cbn [app png_chunks] in H. rewrite D in H.
+  set (rest := concat (map enc_chunk t) ++ tr) in *.
+  assert (len (pdata c) + 4 <=? len (pdata c ++ pcrc c ++ rest) = true) as Hle.
+  { unfold len. rewrite !app_length, Lc. lia. }
+  rewrite Hle in H. rewrite <- En in H. rewrite Un in H. rewrite En in H.
+  assert (len (enc_chunk c) = len (pdata c) + PNG_HDR_LEN) as Lenc.
+  { unfold enc_chunk, len. rewrite !app_length, be_length, Ln, Lc. unfold PNG_HDR_LEN. lia. }
+  assert (skipn (N.to_nat (len (pdata c) + 4)) (pdata c ++ pcrc c ++ rest) = rest) as Hsk.
+  { rewrite app_assoc. rewrite skipn_app.
+    assert (N.to_nat (len (pdata c) + 4) = length (pdata c ++ pcrc c)) as -> by (rewrite app_length, Lc; unfold len; lia).
+    rewrite skipn_all, Nat.sub_diag. reflexivity. }
+  rewrite Hsk in H.
+  destruct t as [|cnext tnext].
+  - (* last chunk: IEND *)
+    cbn [iend_last] in I. rewrite <- En in H. rewrite I in H. cbn [orb] in H. inversion H; subst ps.
+    cbn [cchain cstart]. rewrite N.eqb_refl. unfold cend; cbn [cstart clength].
+    cbn [map concat]. rewrite app_nil_r, Lenc. f_equal. lia.
+  - destruct I as [I It]. rewrite <- En in H. rewrite I in H. cbn [orb] in H.
+    assert ((total <? pos + len (pdata c) + PNG_HDR_LEN) = false) as Hnt.
+    { subst total. rewrite !len_app, Lenc. lia. }
+    rewrite Hnt in H.
+    destruct (png_chunks f total (pos + len (pdata c) + PNG_HDR_LEN) rest) as [ps'| |] eqn:R; try discriminate.
+    inversion H; subst ps.
+    apply IH in R; auto.
+    + cbn [cchain cstart]. rewrite N.eqb_refl. unfold cend; cbn [cstart clength]. rewrite R.
+      rewrite len_app, Lenc. f_equal. lia.
+    + subst total. unfold rest. rewrite !len_app, Lenc. lia.
+Qed.
+
+(* for a well-formed chunk list the map ends exactly where the trailer begins:
+   the class [trailing] is precisely "bytes after IEND" *)
+Theorem png_file_span cs tr m :
+  Forall wf_pchunk cs -> iend_last cs ->
+  png_box_map (png_file cs tr) = Ok m ->
+  span_end m + len tr = len (png_file cs tr) /\ (trailing (len (png_file cs tr)) m <-> tr <> []).
+Proof.
+  intros W I H.
+  destruct (png_tiling _ _ H) as (e & Hc & He).
+  pose proof (chain_span _ _ _ Hc) as Hs. assert (span_end m = e) as Es by lia.
+  unfold png_box_map in H. destruct (png_positions (png_file cs tr)) as [ps| |] eqn:P; try discriminate.
+  inversion H; subst m.
+  unfold png_positions in P.
+  destruct (len (png_file cs tr) <? 8); [discriminate|].
+  destruct (beq (firstn 8 (png_file cs tr)) PNG_ID); [|discriminate].
+  change (skipn 8 (png_file cs tr)) with (concat (map enc_chunk cs) ++ tr) in P.
+  apply png_chunks_encoded in P; auto.
+  2:{ unfold png_file. rewrite len_app. reflexivity. }
+  unfold png_map_of in Hc. cbn [chain estart] in Hc. rewrite N.eqb_refl in Hc.
+  unfold eend in Hc; cbn [estart elen] in Hc.
+  assert (chain 8 (flat_map (png_entries_of (existsb is_cai ps)) ps) = Some (8 + len (concat (map enc_chunk cs)))) as Hc2.
+  { apply cchain_entries. exact P. }
+  change (0 + PNGH_LEN) with 8 in Hc. rewrite Hc2 in Hc. inversion Hc; subst e.
+  assert (len (png_file cs tr) = 8 + len (concat (map enc_chunk cs)) + len tr) as Lf.
+  { unfold png_file. rewrite !len_app. change (len PNG_ID) with 8. lia. }
+  split; [lia|]. unfold trailing. rewrite Lf. split.
+  - intros Hl Hn. subst tr. rewrite len_nil in Hl. lia.
+  - intros Hn. destruct tr; [congruence|]. rewrite len_cons. lia.
+Qed.
+
 (* ---------------------------------------------------------------- witnesses *)
 
 (* signature, IHDR (0 data bytes), IEND, then one byte after IEND *)
